@@ -611,22 +611,17 @@ class DataProviderLinked(DataProvider):
         # into an ndarray of shape (len(global,)
         # as an alternative to the more elegant xarray built-in which is limited to 32 datasets
         # aligned_group_labels = aligned_groups.str.join(dim="dataset").data
-        aligned_group_labels = np.asarray(
-            tuple(
-                "".join(sub_arr.to_numpy().flatten())
-                for _, sub_arr in aligned_groups.groupby("global", squeeze=False)
-            )
-        )
-
         group_definitions: dict[str, list[str]] = {}
-        for i, group_label in enumerate(aligned_group_labels):
-            if group_label not in group_definitions:
-                group_definitions[group_label] = list(
-                    filter(
-                        lambda label: label != "",
-                        aligned_groups.isel({"global": i}).data,
-                    )
-                )
+        aligned_group_labels = []
+        for _, sub_arr in aligned_groups.groupby("global", squeeze=False):
+            dataset_labels = [label for label in sub_arr.to_numpy().flatten() if label != ""]
+            group_label = "".join(dataset_labels)
+            # the concatenated labels of different dataset combinations can coincide ('a'+'b', 'ab')
+            while group_definitions.get(group_label, dataset_labels) != dataset_labels:
+                group_label += "_"
+            group_definitions[group_label] = dataset_labels
+            aligned_group_labels.append(group_label)
+        aligned_group_labels = np.asarray(aligned_group_labels)
         return aligned_group_labels, group_definitions
 
     def align_weights(self, aligned_global_axes: dict[str, ArrayLike]) -> list[ArrayLike | None]:
